@@ -229,6 +229,15 @@ def _run(ctx, d, S2K):
         ctx.expect_eq('count', 'count getter differs from model', {'op': 'count', 'c': c}, hn(s.count), m[0])
         if s.count != rfc_count(c) or m[1] != hn(rfc_count(c)):
             ctx.fail('count', 'decoded count is not the RFC 4880 3.7.1.3 value', {'op': 'count', 'c': c, 'impl': s.count})
+    # one specifier object, several counts in turn, a derivation after each: the key follows the count that is stored (and emitted) NOW
+    s = S2K()
+    seqc = [0x60, 0xff, 0x00, 0x60] + [ctx.rng.randrange(256) for _ in range(ctx.n(20, 200))]
+    for i, c in enumerate(seqc):
+        s.count = c
+        ctx.case('count', ('same-object', i, c))
+        if s.count != rfc_count(c):
+            ctx.fail('count', 'count read from an object that held another coded count before is not the RFC value of the last one set',
+                     {'op': 'count-seq', 'seq': seqc[:i + 1], 'impl': s.count}); break
     ctx.exhaustive.append('all 256 coded counts (decode)')
 
     # ---- 2. small streams: 3 specifiers x every hash x every cipher key size x passphrase shapes; concrete model + RFC transcription ----
@@ -416,6 +425,11 @@ def replay(ctx, case):
     before = len(ctx.violations) + len(ctx.known_hit)
     try:
         op = case.get('op')
+        if op == 'count-seq':
+            s2 = String2Key(); last = None
+            for c in case['seq']:
+                s2.count = c; last = (c, s2.count)
+            return last[1] != rfc_count(last[0])
         if op == 'derive':
             c = {k: v for k, v in case.items() if k not in ('impl', 'model', 'rfc')}
             check_case(ctx, d, String2Key, c, 'replay')
